@@ -541,6 +541,7 @@ def main(tier, replay=None):
     ncorr = 0
     dist = {}
     nfields_tab = 0
+    nchecked = 0
 
     def bump(k, n=1):
         dist[k] = dist.get(k, 0) + n
@@ -631,6 +632,12 @@ def main(tier, replay=None):
                 chk.broke("correspondence: full tables of the model differ from the implementation's for %s" % fname)
             if ohash is not None and mh != ohash:
                 chk.broke("model tables differ from the oracle's tables for %s (f=%d g=%d)" % (fname, fc.irred, fc.g))
+            # the verified checker (Checker.tables_ok, extracted) on the model's tables: the hypothesis of
+            # C05_checked_tables_give_polynomial_arithmetic_mod_f / C05_representation_bijection_and_cardinality
+            nchecked += 1
+            if "C" not in mt or mt[mt.index("C") + 1] != "1":
+                chk.broke("tables_ok (verified checker) rejects the tables of %s (f=%d g=%d) although the oracle finds f irreducible and g primitive"
+                          % (fname, fc.irred, fc.g))
         # 6d. operations
         mi = 0
         for (kind, il, ml, meta), got in zip(fc.lines, fc.out):
@@ -753,6 +760,7 @@ def main(tier, replay=None):
     chk.cov["traces_validated_against_impl"] = ncorr
     chk.cov["fields"] = len(fields)
     chk.cov["fields_with_full_table_check"] = nfields_tab
+    chk.cov["fields_accepted_by_verified_checker"] = nchecked
     chk.cov["distribution"] = dist
     return chk.finish()
 
